@@ -63,11 +63,6 @@ impl Backend {
             })
             .collect();
 
-        // Early return if no fixtures have return types
-        if fixture_map.is_empty() {
-            return Ok(Some(Vec::new()));
-        }
-
         // Convert LSP range to internal line numbers (1-based)
         let start_line = Self::lsp_line_to_internal(range.start.line);
         let end_line = Self::lsp_line_to_internal(range.end.line);
@@ -80,8 +75,27 @@ impl Backend {
                 continue;
             }
 
-            // Look up return type from pre-computed map
-            if let Some(&return_type) = fixture_map.get(usage.name.as_str()) {
+            // A parameter named like its own fixture denotes the parent definition,
+            // not the entry of the per-file view (which is the overriding fixture itself)
+            let parent_return_type = self
+                .fixture_db
+                .get_fixture_definition_at_line(&file_path, usage.line)
+                .filter(|current_def| current_def.name == usage.name)
+                .map(|current_def| {
+                    self.fixture_db
+                        .find_closest_definition_excluding(
+                            &file_path,
+                            &usage.name,
+                            Some(&current_def),
+                        )
+                        .and_then(|parent| parent.return_type)
+                });
+            let return_type = match &parent_return_type {
+                Some(parent_return_type) => parent_return_type.as_deref(),
+                None => fixture_map.get(usage.name.as_str()).copied(),
+            };
+
+            if let Some(return_type) = return_type {
                 // Check if this parameter already has a type annotation
                 // by looking at the text after the parameter name in the current buffer
                 if parameter_has_annotation(&lines, usage.line, usage.end_char) {
